@@ -1198,6 +1198,21 @@ func (w *Walker) call(st *wstate, b *ssa.BasicBlock, idx int, in *ssa.Call) bool
 	if !inline {
 		if !pureCallees[name] && !noHeapEffect[name] && !strings.HasPrefix(name, "builtin:") && !isLogCall(name) {
 			st.epoch++
+			// what the callee can reach through its reference arguments may change:
+			// forget relational facts about memory behind them
+			fargs := append([]ssa.Value{}, in.Call.Args...)
+			if in.Call.IsInvoke() {
+				fargs = append(fargs, in.Call.Value)
+			}
+			for _, a := range fargs {
+				switch a.Type().Underlying().(type) {
+				case *types.Pointer, *types.Map, *types.Interface:
+					ac := w.canon(st, fr, a)
+					if strings.HasPrefix(ac, "param:") || strings.HasPrefix(ac, "local:") || strings.HasPrefix(ac, "*free:") {
+						st.rel.Forget(ac + ".")
+					}
+				}
+			}
 			for _, a := range in.Call.Args {
 				ac := w.canon(st, fr, a)
 				if strings.HasPrefix(ac, "&alloc:") {
